@@ -168,7 +168,7 @@ set_option maxRecDepth 8192
 `block_number_to_hash` row for the block under construction -/
 def evTx0 : List Ev :=
   [ .x "tx" [("number", "0"), ("ts", "100"), ("prevrandao", "abcd"), ("basefee", "0"), ("gasprice", "0"),
-             ("value", "0"), ("coinbase", addr0), ("txid", "ab")] true true 21000 0,
+             ("value", "0"), ("coinbase", addr0), ("txid", "ab"), ("blockgaslimit", "18446744073709551615")] true true 21000 0,
     .s "account" 0 "aa" (some acct0),
     .s "block_number_to_hash" 0 "0000000000000000" (some "zz") ]
 
